@@ -13,18 +13,20 @@ from . import c02, c03
 ID = "C10"
 LEVEL = "proof"
 PROP_FILE = "Properties/C10.v"
-PROOF_FILES = ["Proofs/SpfsFinal.v", "Proofs/UspfsFinal.v", "Proofs/MetaProofs.v", "Proofs/ThlFinal.v", "Proofs/ThlProofs.v", "Proofs/LcaProofs.v", "Proofs/DpProofs.v", "Proofs/ReconProofs.v",
+PROOF_FILES = ["Proofs/CrossProofs.v", "Proofs/SpfsFinal.v", "Proofs/UspfsFinal.v", "Proofs/MetaProofs.v", "Proofs/ThlFinal.v", "Proofs/ThlProofs.v", "Proofs/LcaProofs.v", "Proofs/DpProofs.v", "Proofs/ReconProofs.v",
                "Model/Thl.v", "Model/Spfs.v", "Model/Uspfs.v", "Model/LcaRec.v", "Model/Recon.v"]
 TRUSTED = ["models of the seven algorithms (Model/LcaRec.v, Thl.v, Spfs.v, Uspfs.v) and of the evaluator"]
 ASSUMES = ["binary trees", "coherent cost vectors"]
 RULE = ("random binary inputs with syntenies (up to 5 object leaves for the model comparison, up to 10 object leaves / 8 species / 4 families for the relations on the implementation), coherent costs; "
         "single-family inputs form a separate stream; non-trivial = the seven minimum costs are not all equal")
-OPEN_GOALS = ["unordered_le_ordered", "single_family_collapse"]
-TECHNIQUE = "Coq proof of DTL <= LCA and equality without transfers (from C01 + C07); the remaining relations between the labelled optima are checked on the implementation and against the solver models"
-LEVEL_TEXT = ("Machine-checked inside the coherent region: every reconciliation returned by reconcile_thl costs at most the LCA reconciliation, exactly as much when the transfer cost is infinite. "
-              "Extended <= base is proved for the ordered and the unordered solvers. The relations unordered <= ordered and the single-family collapse are not yet theorems: the seven minimum costs computed by the Coq models "
-              "are compared with the implementation's on every case and the inequalities are evaluated on the implementation's costs, also on inputs up to 10 object leaves.")
-LEVEL_NOTE = "Partial for the labelled relations. Trusted: Coq kernel, hand-written models, correspondence."
+OPEN_GOALS: list = []
+TECHNIQUE = ("Coq proofs on the specification optima transferred to the solver models through their exactness theorems: minimum over a superset (extended <= base), "
+             "order-forgetting map from ordered to unordered solutions (unordered <= ordered), all-[f] labelling (single-family collapse), C01 + C07 (DTL vs LCA)")
+LEVEL_TEXT = ("Machine-checked inside the coherent region for all binary inputs: every solution of an extended solver costs at most every solution of its base variant; every solution of the unordered solver "
+              "costs at most every solution of the ordered one (same variant); every reconciliation returned by reconcile_thl costs at most the LCA reconciliation and exactly as much when transfers are forbidden; "
+              "when every leaf carries the same single family the ordered, unordered and plain DTL optima coincide and both base variants equal the LCA reconciliation cost. "
+              "The seven minimum costs computed by the Coq models are compared with the implementation's on every case and the relations are evaluated on the implementation's costs on inputs up to 10 object leaves.")
+LEVEL_NOTE = "Trusted: Coq kernel, hand-written models of the seven algorithms, correspondence (differential testing). No axioms."
 
 HEADER = R.RECON_HEADER + """From SR Require Import Model.Entry Model.LcaRec Model.Thl Model.Spfs Model.Uspfs.
 Definition mincost {T} (e : option (entry T)) : option ext :=
